@@ -253,35 +253,7 @@ impl<'a, D: DependencyProvider> Encoder<'a, D> {
             // Add forbid constraints for this solvable on all other
             // solvables that have been visited already for the same
             // version set name.
-            let name_id = self.cache.provider().solvable_name(candidate);
-            let other_solvables = self
-                .state
-                .forbidden_clauses_added
-                .entry(name_id)
-                .or_default();
-            other_solvables.add(
-                candidate_var,
-                |a, b, positive| {
-                    let (watched_literals, kind) = WatchedLiterals::forbid_multiple(
-                        a,
-                        if positive { b.positive() } else { b.negative() },
-                        name_id,
-                    );
-                    let clause_id = self.state.clauses.alloc(watched_literals, kind);
-                    let watched_literals = self.state.clauses.watched_literals
-                        [clause_id.to_usize()]
-                    .as_mut()
-                    .expect("forbid clause must have watched literals");
-                    self.state
-                        .watches
-                        .start_watching(watched_literals, clause_id);
-                },
-                || {
-                    self.state
-                        .variable_map
-                        .alloc_forbid_multiple_variable(name_id)
-                },
-            );
+            self.add_forbid_clauses(candidate, candidate_var);
         }
 
         // Add the requirements clause
@@ -432,6 +404,40 @@ impl<'a, D: DependencyProvider> Encoder<'a, D> {
         variable
     }
 
+    /// Adds the clauses that forbid the given solvable to be installed together
+    /// with any other solvable of the same package that has been visited
+    /// already. Does nothing if the solvable has been visited before.
+    fn add_forbid_clauses(&mut self, candidate: SolvableId, candidate_var: VariableId) {
+        let name_id = self.cache.provider().solvable_name(candidate);
+        let other_solvables = self
+            .state
+            .forbidden_clauses_added
+            .entry(name_id)
+            .or_default();
+        other_solvables.add(
+            candidate_var,
+            |a, b, positive| {
+                let (watched_literals, kind) = WatchedLiterals::forbid_multiple(
+                    a,
+                    if positive { b.positive() } else { b.negative() },
+                    name_id,
+                );
+                let clause_id = self.state.clauses.alloc(watched_literals, kind);
+                let watched_literals = self.state.clauses.watched_literals[clause_id.to_usize()]
+                    .as_mut()
+                    .expect("forbid clause must have watched literals");
+                self.state
+                    .watches
+                    .start_watching(watched_literals, clause_id);
+            },
+            || {
+                self.state
+                    .variable_map
+                    .alloc_forbid_multiple_variable(name_id)
+            },
+        );
+    }
+
     /// Enqueues retrieving the dependencies for a solvable.
     ///
     /// This method requests the dependencies for the given solvable in an
@@ -442,6 +448,14 @@ impl<'a, D: DependencyProvider> Encoder<'a, D> {
         // Early out if the solvable has already been processed
         if !self.state.clauses_added_for_solvable.insert(solvable_id) {
             return;
+        }
+
+        // A solvable that is encoded may be installed. Make sure it excludes the other
+        // solvables of its package, also if it was not found as the candidate of a
+        // requirement (e.g. a soft requirement).
+        if let Some(solvable) = solvable_id.solvable() {
+            let variable = self.state.variable_map.intern_solvable(solvable);
+            self.add_forbid_clauses(solvable, variable);
         }
 
         // Construct a future that queries the dependencies for the solvable
